@@ -91,7 +91,7 @@ def curvilinear(ny, nx, skew=0.1, radial=False):
 
 def cf2d(ny=3, nx=4, *, bounds=None, as_coords=True, holes=(), skew=0.1, radial=False, ydim='j', xdim='i',
          lat_name='lat', lon_name='lon', attrs=None, time=2, depth=0, extra=True, std_names=True,
-         first_plain=False):
+         first_plain=False, bounds_transposed=False):
     gx, gy = curvilinear(ny, nx, skew, radial)
     cx = (gx[:-1, :-1] + gx[:-1, 1:] + gx[1:, 1:] + gx[1:, :-1]) / 4
     cy = (gy[:-1, :-1] + gy[:-1, 1:] + gy[1:, 1:] + gy[1:, :-1]) / 4
@@ -121,8 +121,14 @@ def cf2d(ny=3, nx=4, *, bounds=None, as_coords=True, holes=(), skew=0.1, radial=
                 bx[hj, hi] = numpy.nan
                 by[hj, hi] = numpy.nan
         btgt = coords if bounds == 'coords' else data_vars
-        btgt['lat_bnds'] = xarray.DataArray(by, dims=[ydim, xdim, 'four'])
-        btgt['lon_bnds'] = xarray.DataArray(bx, dims=[ydim, xdim, 'four'])
+        if bounds_transposed:
+            # bounds stored with the two grid dimensions the other way round than the coordinate: not the coordinate's grid,
+            # they must not be used positionally
+            btgt['lat_bnds'] = xarray.DataArray(by.transpose(1, 0, 2).copy(), dims=[xdim, ydim, 'four'])
+            btgt['lon_bnds'] = xarray.DataArray(bx.transpose(1, 0, 2).copy(), dims=[xdim, ydim, 'four'])
+        else:
+            btgt['lat_bnds'] = xarray.DataArray(by, dims=[ydim, xdim, 'four'])
+            btgt['lon_bnds'] = xarray.DataArray(bx, dims=[ydim, xdim, 'four'])
     if extra:
         tdims = (['time'] if time else []) + (['k'] if depth else [])
         tshape = ([time] if time else []) + ([depth] if depth else [])
